@@ -4,6 +4,7 @@ use serde_json::{json, Value};
 use std::io::{BufRead, Write};
 use std::panic::{catch_unwind, AssertUnwindSafe};
 
+mod ops_chain;
 mod ops_codec;
 mod ops_coord;
 mod ops_gossip;
@@ -40,6 +41,9 @@ fn dispatch(req: &Value) -> Value {
         return v;
     }
     if let Some(v) = ops_locks::handle(op, req) {
+        return v;
+    }
+    if let Some(v) = ops_chain::handle(op, req) {
         return v;
     }
     if let Some(v) = ops_snap::handle(op, req) {
